@@ -408,13 +408,7 @@ def r7_cleanup_reach(ctx):
 
 
 def run(ctx):
-    r1_ownership_dominates_execute(ctx)
-    r2_who_writes_ownership(ctx)
-    r3_close(ctx)
-    r4_classification(ctx)
-    r5_creations_top_level(ctx)
-    r6_transfer_before_forward(ctx)
-    r7_cleanup_reach(ctx)
+    ctx.run_rules([r1_ownership_dominates_execute, r2_who_writes_ownership, r3_close, r4_classification, r5_creations_top_level, r6_transfer_before_forward, r7_cleanup_reach])
     return (
         "Decides structural clauses: the ownership test guards the only backend execute call (path-wise, with the violating edge reported); "
         "the ownership map has exactly three reviewed writers; close_resource has one caller, is followed by removal, and runs only for "
